@@ -105,6 +105,22 @@ fn run_scenario(sc: &Scenario, out_violations: &Mutex<Vec<(String, String)>>) ->
         for _ in 0..sc.readers_mapped {
             s.spawn(|| {
                 while !stop.load(Ordering::Relaxed) {
+                    // a projection that fails hands the guard back: it must still be a guard
+                    let back = match AssetReadGuard::try_map(h.read(), |w| w.1.get(1000..1001)) {
+                        Ok(_) => unreachable!(),
+                        Err(g) => g,
+                    };
+                    let b1 = back.1[0];
+                    let id1 = reload_id_raw(h.last_reload_id()) as u64;
+                    for _ in 0..100 {
+                        std::hint::spin_loop();
+                    }
+                    std::thread::yield_now();
+                    let id2 = reload_id_raw(h.last_reload_id()) as u64;
+                    if uniform(&back.1) != Some(b1) || id1 != id2 || id1 != b1 {
+                        report("guard-not-pinned", format!("guard handed back by a failed try_map: value {b1} then {:?}, reload id {id1} then {id2}", uniform(&back.1)));
+                    }
+                    drop(back);
                     let g = AssetReadGuard::map(h.read(), |w| &w.1[16..48]);
                     let v1 = g[0];
                     std::thread::yield_now();
